@@ -145,7 +145,7 @@ func (e *Enc) applyCall(v ssa.Value, c *ssa.CallCommon, args []TV, in ssa.Instru
 				e.unmodelled[key] = true
 			}
 			e.frameCheckCallAll(site, in, guard)
-			e.havocAll()
+			e.havocAllArgs(args)
 		}
 		if v != nil {
 			e.havocVal(v)
@@ -214,7 +214,7 @@ func (e *Enc) applyCall(v ssa.Value, c *ssa.CallCommon, args []TV, in ssa.Instru
 	pre := e.st.clone()
 	if !ctr.HasMod {
 		e.frameCheckCallAll(site, in, guard)
-		e.havocAll()
+		e.havocAllArgs(args)
 	} else {
 		for _, m := range ctr.Modifies {
 			tg, err := e.modTargets(m, env)
